@@ -379,6 +379,32 @@ def PartsKept (d : Nat) : List Rd → List Rd → Prop
   | r :: rs, r' :: rs' => (posOf r' = posOf r ∧ den r' = den r ∧ PartOK d r') ∧ PartsKept d rs rs'
   | _, _ => False
 
+/-! ### clones of a bit reader over bytes: independent cursors -/
+
+/-- an interleaved history over the family {original, clone 1, clone 2, …}: (cursor, operation) -/
+def famRun (d : Nat) : List Rd → List (Nat × HOp) → List (Nat × HOp × Outcome Res)
+  | _, [] => []
+  | cs, (k, op) :: ops =>
+    match famStep d cs k op.toOp with
+    | .ok (cs', res) => (k, op, .ok res) :: famRun d cs' ops
+    | .fault w => [(k, op, .fault w)]
+    | .hang => [(k, op, .hang)]
+    | .unsupported w => [(k, op, .unsupported w)]
+
+/-- the specification: every cursor is a `bitsSpecStep` machine of its own over the byte string — there is NO
+    shared component, so what one cursor answers cannot depend on what the others did; `clone` adds a fresh cursor -/
+def famSpec (data : List UInt8) : List (Int × List UInt8) → List (Nat × HOp) → List (Nat × HOp × Outcome Res)
+  | _, [] => []
+  | sts, (k, op) :: ops =>
+    match sts[k]? with
+    | none => [(k, op, .unsupported "no such cursor")]
+    | some st =>
+      match bitsSpecStep data st op with
+      | .ok (st', res) => (k, op, .ok res) :: famSpec data (if op = .clone then sts ++ [st'] else sts.set k st') ops
+      | .fault w => [(k, op, .fault w)]
+      | .hang => [(k, op, .hang)]
+      | .unsupported w => [(k, op, .unsupported w)]
+
 /-! ### aheadreadseeker against bytes.Reader -/
 
 /-- byte-level operations whose results are determined by the data alone: io.ReadFull and Seek
